@@ -52,7 +52,7 @@ SLOTS = re.findall(r'%\(([a-z.]+)\)s', TEMPLATE)
 SYMBOL = {'mi': 'acmeText', 'tc': 'AcmeTc', 'obj': 'acmeObj', 'oi': 'acmeIdent', 'nt': 'acmeNotif', 'og': 'acmeGroup', 'ng': 'acmeNGroup',
           'mc': 'acmeCompl', 'ac': 'acmeCaps'}
 GATED = ('description', 'reference', 'organization', 'contactinfo')
-FILTERED = ('description', 'reference', 'organization', 'contactinfo', 'units', 'revision')
+FILTERED = ('description', 'reference', 'organization', 'contactinfo', 'units', 'revision', 'productrelease')
 SETTER = {'description': 'setDescription', 'reference': 'setReference', 'organization': 'setOrganization', 'contactinfo': 'setContactInfo',
           'units': 'setUnits', 'productrelease': 'setProductRelease'}
 
